@@ -332,9 +332,11 @@ def next_post(num, ev):
     k = chunks_k(num, ev[8][0])
     if k is None:
         return []
-    payload = ("field", ("variant", ev[3], "Some"), "0")
-    l = slen(num, payload)
-    return [le(l, k), le(k, l)]
+    out = []
+    for payload in (("field", ("variant", ev[3], "Some"), "0"), ("okval", ev[3])):
+        l = slen(num, payload)
+        out += [le(l, k), le(k, l)]
+    return out
 
 
 C["std::iter::Iterator::next"]["post"] = next_post
